@@ -230,14 +230,23 @@ pub fn check(case: &Case, idx: u64, acc: &mut Acc) {
             let (lo, hi) = (z0 - 1000, z0 + 1000);
             let ns = counts(true);
             let wl = w.len() as i64;
+            // the oracle's calendar is built from the DEFINITION (week masks + word), not from the real predicates
+            let wb = w.as_bytes();
+            let model = |z: i64| {
+                let wd = weekday(z) as u8;
+                let off = z - z0;
+                let letter = if off >= 0 && off < wl { wb[off as usize] } else { b'S' };
+                let bus_day = bmask & (1 << wd) == 0 && letter != b'N';
+                let settle_day = smask.map_or(true, |sm| sm & (1 << wd) == 0) && letter != b'B';
+                (bus_day, settle_day)
+            };
+            let bm = Bitmap::from_fn(lo, hi, model);
             match smask {
                 None => {
                     if b.is_empty() {
-                        let bm = Bitmap::of(&bus, lo, hi);
                         check_cal(&bus, &bm, z0 - 1, z0 + wl, &ns, true, "Cal", case, idx, acc);
                     }
                     let u = UnionCal::new(vec![bus], if b.is_empty() { None } else { Some(vec![Cal::new(b.iter().map(|z| to_ndt(*z)).collect(), vec![])]) });
-                    let bm = Bitmap::of(&u, lo, hi);
                     check_cal(&u, &bm, z0 - 1, z0 + wl, &ns, true, "UnionCal", case, idx, acc);
                 }
                 Some(sm) => {
@@ -246,7 +255,6 @@ pub fn check(case: &Case, idx: u64, acc: &mut Acc) {
                         return;
                     }
                     let u = UnionCal::new(vec![bus], Some(vec![Cal::new(b.iter().map(|z| to_ndt(*z)).collect(), mask_vec(*sm))]));
-                    let bm = Bitmap::of(&u, lo, hi);
                     check_cal(&u, &bm, z0 - 1, z0 + wl, &ns, true, "UnionCal", case, idx, acc);
                 }
             }
@@ -345,7 +353,7 @@ pub fn run(ctx: &Ctx, replay_file: Option<String>) -> ! {
          that crossed at least one non-business day; ranges that drop a day.",
         json!({"window": ctx.tier.pick(5, 7), "cases": cs.len(), "day_counts": "all 256 i8 values"}),
     )
-    .assume("is_bus_day / is_settlement taken as given (C06/C07)")
+    .assume("named calendars: is_bus_day / is_settlement taken as given (C06/C07); word calendars use an independent model of the predicates")
     .assume("lag(non-business day, 0, settlement=true): the statement is silent on whether settlement applies; both readings accepted");
     finish(ctx, acc, meta)
 }
